@@ -9,7 +9,7 @@ import math
 import struct
 
 __all__ = ["forall", "exists", "implies", "ite", "seq_eq_at", "unchanged", "is_nan", "is_finite", "f32_round",
-           "float_eq", "f32_bytes", "f64_bytes", "ghost", "fresh_int", "f32_of_bytes", "f64_of_bytes"]
+           "float_eq", "f32_bytes", "f64_bytes", "ghost", "fresh_int", "f32_of_bytes", "f64_of_bytes", "prefix_sum"]
 
 
 def forall(lo, hi, fn):
@@ -84,3 +84,8 @@ def f32_of_bytes(data, pos):
 
 def f64_of_bytes(data, pos):
     return struct.unpack(">d", bytes(data[pos:pos + 8]))[0]
+
+
+def prefix_sum(seq, i):
+    """seq[0] + ... + seq[i-1]"""
+    return sum(seq[:i])
